@@ -412,22 +412,28 @@ func (vc *FuncVC) applyContract(st *State, reach Term, ins *ssa.Call, callee *ss
 		}
 		vc.assume(Implies(reach, envPost.boolean(en.E)))
 	}
-	if vc.defKeys != nil && fc.HasAssigns {
-		// what the callee lists in assigns has been written (when its outs condition holds)
+	if vc.defKeys != nil {
+		// what the callee's outs clause lists has been written (when its condition holds); other assigned
+		// locations keep the definedness they had
 		cond := TTrue
 		if fc.OutsWhen != nil && !mentionsUnknown(vc.W, fc.OutsWhen.E, post) {
 			cond = vc.define("outs_when", envPost.boolean(fc.OutsWhen.E))
 		}
-		for _, ax := range fc.Assigns {
-			for _, lf := range vc.lvalue(envPre, ax) {
-				if !vc.defKeys[lf.Key] {
-					continue
-				}
-				if cond.S == "true" {
-					vc.markDef(st, lf.Key, lf.Idx, TTrue)
-				} else {
-					vc.markDef(st, lf.Key, lf.Idx, Or(vc.isDef(defBefore, lf.Key, lf.Idx), cond))
-				}
+		var written []leafRef
+		for _, o := range fc.Outs {
+			written = append(written, vc.lvalue(envPre, &EIdent{Name: o})...)
+		}
+		for _, ox := range fc.OutFields {
+			written = append(written, vc.lvalue(envPre, ox)...)
+		}
+		for _, lf := range written {
+			if !vc.defKeys[lf.Key] {
+				continue
+			}
+			if cond.S == "true" {
+				vc.markDef(st, lf.Key, lf.Idx, TTrue)
+			} else {
+				vc.markDef(st, lf.Key, lf.Idx, Or(vc.isDef(defBefore, lf.Key, lf.Idx), cond))
 			}
 		}
 	}
@@ -567,6 +573,20 @@ func (vc *FuncVC) execReturn(st *State, reach Term, ins *ssa.Return) {
 				src += " when " + vc.fc.OutsWhen.Src
 			}
 			vc.oblige("D", fmt.Sprintf("written/%s/ret%d", name, k), reach, goal, []string{"C05", "C06"}, ins.Pos(), src)
+		}
+		e0 := vc.env(vc.entry, nil)
+		for _, ox := range vc.fc.OutFields {
+			var gs []Term
+			for _, lf := range vc.lvalue(e0, ox) {
+				if vc.defKeys[lf.Key] {
+					gs = append(gs, vc.isDef(st, lf.Key, lf.Idx))
+				}
+			}
+			src := "the field " + exprString(ox) + " is written"
+			if vc.fc.OutsWhen != nil {
+				src += " when " + vc.fc.OutsWhen.Src
+			}
+			vc.oblige("D", fmt.Sprintf("written/%s/ret%d", exprString(ox), k), reach, Implies(cond, And(gs...)), []string{"C05", "C06"}, ins.Pos(), src)
 		}
 	}
 	if vc.fc.HasAssigns {
